@@ -24,7 +24,7 @@ RULE = (
     "(xpath text, tree fingerprint)"
 )
 ASSUMPTIONS = ["reference evaluator encodes the documented semantics (virtual super-root; the root satisfies no field/index constraint)"]
-MUST_SEE = ["late_defined_class", "index_ge_10_match", "first_step_field", "root_matches", "two_anywhere", "nonempty", "relative_spelling", "index_only_step"]
+MUST_SEE = ["second_tree_sharing_nodes", "late_defined_class", "index_ge_10_match", "first_step_field", "root_matches", "two_anywhere", "nonempty", "relative_spelling", "index_only_step"]
 CONFIG = {
     "quick": {"shards": 16, "trees": 50, "xpaths": 70, "watchdog_s": 300},
     "thorough": {"shards": 32, "trees": 300, "xpaths": 120, "watchdog_s": 3000},
@@ -95,6 +95,11 @@ def run_shard(ctx):
         if case == 0 and ctx.shard == 0:
             ctx.sample({"tree": spec_json(s)})
         tree = root.to_tree()
+        # another Tree that re-uses some of these node objects at other positions (built after the first, both kept)
+        picks = [o for o in (obj[id(p)] for p in rng.sample(pos, min(3, len(pos)))) if isinstance(o, U.cls[f"{P}Expr"])]
+        other_tree = U.cls[f"{P}List"](items=tuple(dict.fromkeys(picks)), root=None).to_tree() if picks else None
+        if other_tree is not None:
+            ctx.count("second_tree_sharing_nodes")
         for k in range(ctx.params["xpaths"]):
             path = RX.gen_path(rng, pos, field_names, class_names, cls_choices)
             relative = path[0][0] and rng.random() < 0.5
@@ -117,6 +122,9 @@ def run_shard(ctx):
                 d["findall"] = sorted(idx.get(i, "?") for i in got_ids)
                 d["expected"] = sorted(idx[i] for i in exp_ids)
                 ctx.violation("findall-vs-reference", "findall differs from the documented semantics", d)
+            if k % 2 and picks:
+                # the other Tree is built again right before the kept Tree is used
+                other_tree = U.cls[f"{P}List"](items=tuple(dict.fromkeys(picks)), root=None).to_tree()
             m_ids = sorted(id(obj[id(p)]) for p in pos if xp.match(tree if k % 2 else root, obj[id(p)]))
             if m_ids != exp_ids:
                 d = dict(detail)
